@@ -56,10 +56,14 @@ def rc_history(rng):
             kinds.append(3); holds.append(1); cnt.append(0)
             ctx_children[i] = ([k] if k >= 0 else []) + [d, o]
             attach(i)
-        elif c < 0.62:
+        elif c < 0.58:
             live = [i for i in range(len(kinds)) if alive(i)]
             if live:
                 i = rng.choice(live); ops += ["a", str(i)]; holds[i] += 1; attach(i)
+        elif c < 0.66:
+            lp = [j for j, cidx in enumerate(polys) if cidx is not None]
+            if lp:
+                ops += ["up", str(rng.choice(lp))]
         elif c < 0.80:
             held = [i for i in range(len(kinds)) if holds[i] > 0]
             if held:
@@ -67,8 +71,14 @@ def rc_history(rng):
         elif c < 0.92:
             ctxs = [i for i in range(len(kinds)) if kinds[i] == 3 and alive(i)]
             if ctxs:
-                i = rng.choice(ctxs); ops += ["np", str(i), "x"]; polys.append(i); attach(i)
-                ops.pop()  # no text argument
+                i = rng.choice(ctxs); ops += ["np", str(i)]; polys.append(i); attach(i)
+                if holds[i] > 0 and rng.random() < 0.5:
+                    # the creator lets go: the polynomial may now be the last holder of its context
+                    n_rel = holds[i] if rng.random() < 0.7 else 1
+                    for _ in range(n_rel):
+                        ops += ["d", str(i)]; holds[i] -= 1; detach(i)
+                    if rng.random() < 0.8:
+                        ops += ["up", str(len(polys) - 1)]
         else:
             lp = [j for j, cidx in enumerate(polys) if cidx is not None]
             if lp:
@@ -125,6 +135,15 @@ def generate(rng, tier):
                 if op == "reductum" and a in ("0", "1", "-3"):
                     continue      # reductum is defined on non-constant polynomials (asserted)
                 cases.append("pdst %s %s %s %s" % (op, a, arg, prior))
+        elif c < 0.52:
+            # two output operands; operands univariate in x0 (B monic so that exact divrem is defined), or constants
+            uni = ["1*x0^1", "1*x0^1+1", "1*x0^2+-2*x0^1+1", "1*x0^1+-1", "1*x0^3+7"]
+            op = rng.choice(["divrem", "pdivrem", "spdivrem", "ppcont"])
+            if rng.random() < 0.35:
+                a, b = str(rng.choice([6, -7, 12, 1])), str(rng.choice([2, 3, -1, 5]))
+            else:
+                a, b = rng.choice(uni + ["2*x0^2+-1*x0^1+3", "-1*x0^3+7"]), rng.choice(uni)
+            cases.append("pdst2 %s %s %s %s %s" % (op, a, b, rng.choice(POLYS), rng.choice(POLYS)))
         elif c < 0.70:
             op = rng.choice(["add", "sub", "mul", "div", "neg", "inv", "assign", "pow"])
             a, b, prior = rng.choice(VALS), rng.choice(VALS), rng.choice(VALS + ["-inf", "+inf"])
@@ -136,7 +155,7 @@ def generate(rng, tier):
                 continue
             cases.append("vdst %s %s %s %s" % (op, a, b, prior))
         elif c < 0.82:
-            op = rng.choice(["add", "mul", "pow"])
+            op = rng.choice(["add", "mul", "pow", "assign"])
             def iv():
                 lo, hi = sorted(rng.sample(range(len(IVALS)), 2))
                 if rng.random() < 0.2:
@@ -165,7 +184,7 @@ def post_run(vlib, clib, seed, tier, log):
     collect ASan/UBSan crashes and LeakSanitizer reports.  Returns (violations, coverage)."""
     here = os.path.dirname(os.path.abspath(__file__))
     viol, cov = [], {}
-    limit = 400 if tier == "quick" else 5000
+    limit = 600 if tier == "quick" else 8000
     for f in sorted(glob.glob(os.path.join(here, "C*.py"))):
         pid = os.path.basename(f)[:-3]
         if pid == "C19":
@@ -173,20 +192,31 @@ def post_run(vlib, clib, seed, tier, log):
         try:
             G = importlib.import_module(pid)
             rng = random.Random(seed * 7919 + int(pid[1:]))
-            cases = G.generate(rng, "quick")[:limit]
+            cases = G.generate(rng, "quick")
+            if len(cases) > limit:
+                cases = rng.sample(cases, limit)      # a sample across all operation kinds, not a prefix
             corpus = os.path.join(os.path.dirname(here), "corpus", pid + ".txt")
             if os.path.exists(corpus):
                 cases = [l.rstrip("\n") for l in open(corpus) if l.strip() and not l.startswith("#")] + cases
             exe = vlib.build_cdriver(getattr(G, "HARNESS", pid.lower()), clib)
             outs, crashes, leaks = vlib.run_driver(exe, getattr(G, "C_ARGS", []), cases, timeout=900)
+            # the other drivers run every operation with fresh / pre-used / aliased outputs: compare with their models too
+            mexe = vlib.build_mdriver()
+            minputs = [c + (" => " + o if o is not None else "") for c, o in zip(cases, outs)]
+            mouts, _, _ = vlib.run_driver(mexe, [pid], minputs, timeout=900)
+            bad, _, _ = vlib.compare_outputs(G, cases, outs, mouts, crashes)
         except Exception as e:  # a harness that does not build/run is that property's problem, but say so
             cov[pid] = "not run: %r" % (e,)
             continue
-        cov[pid] = {"cases": len(cases), "crashes": len(crashes), "leak_reports": len(leaks)}
-        for (i, err, rc) in crashes:
-            if "Sanitizer" in err or "runtime error" in err:
-                viol.append({"property": "C19", "kind": "sanitizer", "tag": "sweep:" + pid, "harness_of": pid,
-                             "case": cases[i], "stderr_tail": err[-2500:]})
+        cov[pid] = {"cases": len(cases), "crashes": len(crashes), "leak_reports": len(leaks), "disagreements": len(bad)}
+        fid_of = getattr(G, "finding_id", None)
+        for (i, kind, detail) in bad:
+            if kind == "crash" and not ("Sanitizer" in (detail or "") or "runtime error" in (detail or "") or "Assertion" in (detail or "") or True):
+                continue
+            viol.append({"property": "C19", "kind": kind, "tag": "sweep:%s:%s" % (pid, G.tag(cases[i])), "harness_of": pid,
+                         "case": cases[i], "c_out": outs[i], "model_out": mouts[i], "stderr_tail": (detail or "")[-2500:],
+                         "finding_id": fid_of(cases[i], outs[i], mouts[i]) if fid_of else None,
+                         "note": "found while sweeping the %s driver (fresh / pre-used / aliased output operands, sanitizers on)" % pid})
         for l in leaks:
             viol.append({"property": "C19", "kind": "leak", "tag": "leak:" + pid, "harness_of": pid,
                          "case": "(leak reported at exit of the %s driver over %d cases)" % (pid, len(cases)),
